@@ -67,8 +67,12 @@ func newMarker() string {
 func newShapedMarker(shape string) string {
 	markerSeq++
 	m := fmt.Sprintf("%04d-02-%02d", 1000+markerSeq%9000, 30+markerSeq%2)
-	if shape == "date-time" {
+	switch shape {
+	case "date-time":
 		m += "T10:20:30Z"
+	case "ipv6", "ipv4", "vx-ip-any":
+		// an address followed by a zone: the zone is the client's text
+		m = map[string]string{"ipv6": "fe80::1%", "ipv4": "10.0.0.1%", "vx-ip-any": "fe80::2%"}[shape] + newMarker()
 	}
 	return m
 }
@@ -85,6 +89,9 @@ func markValue(v any, markers *[]string, keepLen bool) any {
 			m = newShapedMarker(c19Shape)
 		}
 		*markers = append(*markers, m)
+		if i := strings.IndexByte(m, '%'); i >= 0 && c19Shape != "" {
+			*markers = append(*markers, m[i+1:]) // the zone alone identifies the value as well
+		}
 		return m
 	case []any:
 		o := make([]any, len(x))
@@ -192,7 +199,9 @@ func runC19(c *core.Ctx) {
 	}
 	// values that have the outer form their format asks for and are refused all the same (a date that is no day of the
 	// calendar): a validator that checks more than the form must not quote what it refuses
-	for _, shape := range []string{"date", "date-time"} {
+	openapi3.DefineIPv4Format()
+	openapi3.DefineIPv6Format()
+	for _, shape := range []string{"date", "date-time", "ipv6", "ipv4", "vx-ip-any"} {
 		f := gen.S{"type": "string", "format": shape, "maxLength": 9.0} // (maxLength: refused in any case, whatever the format check says)
 		for _, s := range []gen.S{f, {"type": "object", "properties": gen.S{"a": f}}, {"type": "array", "items": f}, {"allOf": gen.Arr(f)}, {"oneOf": gen.Arr(f, gen.S{"type": "integer"})}, {"type": "object", "additionalProperties": f}} {
 			if c.Mine(idx) {
@@ -263,14 +272,19 @@ func c19Schema(c *core.Ctx, s gen.S, sc *openapi3.Schema, values []any, directed
 			continue
 		}
 		typedV, hasTyped := typedSlices(gen.CloneValue(v))
-		for mi := 0; mi < 2*len(modes); mi++ {
+		for mi := 0; mi < 3*len(modes); mi++ {
 			m := modes[mi%len(modes)]
 			var err error
 			kv := gen.CloneValue(v)
-			if mi >= len(modes) {
+			if mi >= 2*len(modes) {
+				// the same value as a Go program builds it from its own types: strings of a named string type
+				kv = namedStrings(kv)
+				m.name += "/named-string-type"
+				c.Cover("value_representation", "named-string-type")
+			} else if mi >= len(modes) {
 				// the same value as a Go program holds it: string lists as []string rather than []any
 				if !hasTyped {
-					break
+					continue
 				}
 				kv = typedV
 				m.name += "/typed-slices"
@@ -325,6 +339,26 @@ func c19Schema(c *core.Ctx, s gen.S, sc *openapi3.Schema, values []any, directed
 			}
 		}
 	}
+}
+
+// c19Text is what a Go program typically declares for the values of an enumeration or a discriminator.
+type c19Text string
+
+// namedStrings returns v with every string leaf held as a value of a named string type.
+func namedStrings(v any) any {
+	switch x := v.(type) {
+	case string:
+		return c19Text(x)
+	case []any:
+		for i, e := range x {
+			x[i] = namedStrings(e)
+		}
+	case map[string]any:
+		for k, e := range x {
+			x[k] = namedStrings(e)
+		}
+	}
+	return v
 }
 
 // typedSlices returns v with every non-empty list of strings held as []string (what a Go caller passes for a decoded
